@@ -7,6 +7,7 @@ import (
 	"fmt"
 	"os"
 	"path/filepath"
+	"regexp"
 	"sort"
 	"strconv"
 	"strings"
@@ -391,6 +392,52 @@ func runCheck(repo, prop, tier string, rest []string) int {
 		}
 	}
 
+	// 5b. thorough tier: the reproductions of the REPAIRED findings of this property are regression tests - each
+	// failed before its fix: commit and must pass now; a failure means the defect has returned
+	var fixedReplays []string
+	if tier == "thorough" {
+		re := regexp.MustCompile(`^fixed: property=(C[0-9]+) .*replay (known-findings/[A-Za-z0-9_]+\.go):([A-Za-z0-9_]+)`)
+		byFile := map[string][]string{}
+		for _, line := range kf.Fixed {
+			m := re.FindStringSubmatch(line)
+			if m == nil || m[1] != prop || strings.Contains(m[2], "race") {
+				continue
+			}
+			byFile[m[2]] = append(byFile[m[2]], m[3])
+		}
+		var files []string
+		for f := range byFile {
+			files = append(files, f)
+		}
+		sort.Strings(files)
+		for _, f := range files {
+			srcB, err := os.ReadFile(filepath.Join(vdir, f))
+			if err != nil {
+				continue
+			}
+			pkgDir := "."
+			switch {
+			case strings.Contains(f, "kf_list"):
+				pkgDir = "ds/list"
+			case strings.Contains(f, "kf_set"):
+				pkgDir = "ds/set"
+			case strings.Contains(f, "kf_zset"):
+				pkgDir = "ds/zset"
+			}
+			sc, _ := os.MkdirTemp("", "govc-fixed-")
+			out, failed, err := goTestOverlay(repo, pkgDir, "govc_fixed_test.go", string(srcB), "("+strings.Join(byFile[f], "|")+")", sc)
+			os.RemoveAll(sc)
+			fixedReplays = append(fixedReplays, fmt.Sprintf("%s: %s", f, strings.Join(byFile[f], ", ")))
+			if err == nil && failed {
+				os.MkdirAll(replayDir, 0o755)
+				path := filepath.Join(replayDir, "fixed-"+sanitize(filepath.Base(f))+".txt")
+				os.WriteFile(path, []byte(tail(out, 4000)), 0o644)
+				fmt.Printf("VIOLATION property=%s replay=%s a repaired finding has returned (reproduction in %s fails again)\n", prop, path, f)
+				exit = 1
+			}
+		}
+	}
+
 	// 6. evidence
 	var assumptions []string
 	for a := range res.assumptions {
@@ -430,6 +477,7 @@ func runCheck(repo, prop, tier string, rest []string) int {
 		"vacuity_canaries":          map[string]int{"checked": res.canaries, "contradictory": len(res.vacuous)},
 		"extern_models":             models,
 		"bounded_standins":          standinReports,
+		"fixed_finding_regressions": fixedReplays,
 		"samples":                   samples,
 		"load_s":                    e.loadTime,
 		"timeout_s":                 timeout,
